@@ -1,4 +1,4 @@
-//@@ unit props=C10,C06,C01,C02,C03,C16
+//@@ unit props=C10,C06,C01,C02,C03,C16,C11
 // Unit formats: number-format classification (src/formats.rs), verbatim text.
 //
 // detect_custom_number_format (entry, unbounded in the length of the string):
@@ -804,10 +804,10 @@ pub proof fn lemma_edt_mk_parts(value: f64, datetime_type: ExcelDateTimeType, is
 {}
 
 //@@ impl src/datatype.rs ExcelDateTime
-//@@ fn src/datatype.rs ExcelDateTime::new props=C10,C16 ret=r
+//@@ fn src/datatype.rs ExcelDateTime::new props=C10,C16,C11 ret=r
 //@@ sig
     ensures
-        //# C10,C16.edt_new_fields
+        //# C10,C16,C11.edt_new_fields
         edt_parts(r) == (value, datetime_type, is_1904),
 //@@ end
 //@@ endimpl
@@ -823,23 +823,23 @@ pub open spec fn flavour(format: Option<&CellFormat>) -> Option<ExcelDateTimeTyp
 
 // Verus leaves the exec cast `i64 as f64` unspecified, so the serial value of the i64 variant is discharged by the
 // complete Kani harness formats::format_excel_i64_complete (bit comparison); here: shape, flavour, date system.
-//@@ fn src/formats.rs format_excel_i64 props=C10,C02,C16 ret=r
+//@@ fn src/formats.rs format_excel_i64 props=C10,C02,C16,C11 ret=r
 //@@ sig
     ensures
         //# C10,C02.i64_plain_when_not_date_format
         flavour(format) is None ==> r == Data::Int(value),
         //# C10.i64_datetime_iff_date_format
         flavour(format) is Some <==> r is DateTime,
-        //# C10,C16.i64_flavour_and_date_system
+        //# C10,C16,C11.i64_flavour_and_date_system
         flavour(format) matches Some(ty) ==> edt_parts(r->DateTime_0).1 == ty && edt_parts(r->DateTime_0).2 == is_1904,
 //@@ end
 
-//@@ fn src/formats.rs format_excel_f64_ref props=C10,C01,C03,C16 ret=r
+//@@ fn src/formats.rs format_excel_f64_ref props=C10,C01,C03,C16,C11 ret=r
 //@@ sig
     ensures
         //# C10,C01,C03.f64_plain_when_not_date_format
         flavour(format) is None ==> r == DataRef::<'static>::Float(value),
-        //# C10,C16.f64_datetime_iff_date_format
+        //# C10,C16,C11.f64_datetime_iff_date_format
         flavour(format) matches Some(ty) ==> r == DataRef::<'static>::DateTime(edt_mk(value, ty, is_1904)),
 //@@ end
 
@@ -878,12 +878,12 @@ impl<'a> vstd::std_specs::convert::FromSpecImpl<DataRef<'a>> for Data {
 //@@ end
 //@@ endimpl
 
-//@@ fn src/formats.rs format_excel_f64 props=C10,C02,C16 ret=r
+//@@ fn src/formats.rs format_excel_f64 props=C10,C02,C16,C11 ret=r
 //@@ sig
     ensures
         //# C10,C02.f64_owned_plain_when_not_date_format
         flavour(format) is None ==> r == Data::Float(value),
-        //# C10,C16.f64_owned_datetime_iff_date_format
+        //# C10,C16,C11.f64_owned_datetime_iff_date_format
         flavour(format) matches Some(ty) ==> r == Data::DateTime(edt_mk(value, ty, is_1904)),
 //@@ end
 
